@@ -269,7 +269,27 @@ func vC14Mangle(r *rand.Rand, s string) string {
 		}
 		return r.Intn(len(s) + 1)
 	}
-	switch r.Intn(9) {
+	switch r.Intn(12) {
+	case 9, 10: // damage that keeps the length (and so the grouping of everything behind it): one character
+		// replaced by padding or by an octet outside the alphabet
+		if len(s) == 0 {
+			return s
+		}
+		p := pos()
+		if p >= len(s) {
+			p = r.Intn(len(s))
+		}
+		return s[:p] + []string{"=", "=", "!", "-", "_", " ", "\x00", "\xff"}[r.Intn(8)] + s[p+1:]
+	case 11: // a whole group of four put in on a group boundary (now and then off it): a padded or damaged
+		// group in front of well-formed material
+		p := pos() &^ 3
+		if r.Intn(5) == 0 {
+			p = pos()
+		}
+		if p > len(s) {
+			p = len(s) &^ 3
+		}
+		return s[:p] + []string{"AA==", "AAA=", "A===", "====", "!AAA", "AA=A", "A=AA", "AAA!"}[r.Intn(8)] + s[p:]
 	case 0: // padding in the middle
 		p := pos()
 		return s[:p] + []string{"=", "==", "A=", "AA=", "AA==", "AAA="}[r.Intn(6)] + s[p:]
@@ -916,7 +936,12 @@ func vC14CaseKeyTag(tr *vC14Trace, r *rand.Rand) {
 	if r.Intn(6) == 0 {
 		k.Protocol = uint8(r.Intn(256))
 	}
-	if k.Algorithm == dns.RSAMD5 && r.Intn(2) == 0 { // short moduli are where the library's own derivation breaks
+	if k.Algorithm == dns.RSAMD5 && r.Intn(3) == 0 {
+		// RSAMD5 reads the END of the material: damage somewhere in front of a well-formed tail decides where a
+		// single decode stops, and so which octets the tag is taken from
+		k.PublicKey = vC14Mangle(r, k.PublicKey)
+		shape += "+mangled"
+	} else if k.Algorithm == dns.RSAMD5 && r.Intn(2) == 0 { // short moduli are where the library's own derivation breaks
 		raw := vC14RandBytes(r, []int{0, 1, 2, 2, 3, 4}[r.Intn(6)])
 		k.PublicKey = base64.StdEncoding.EncodeToString(raw)
 		shape = "rsamd5-short"
